@@ -132,7 +132,11 @@ class Emitter:
             # backmp11 conditional deferral: [(event, atom)]
             self.w('#if CFG >= 5')
             for ev, atom in st['cond_defer']:
-                self.w('  template<class Fsm> bool is_event_deferred(const %s& e, Fsm& f) const { return rt::guard(%d, e, f); }' % (ev, atom))
+                self.w('  template<class Fsm> bool is_event_deferred(const %s& e, Fsm& f) const { return rt::cond(%d, e, f); }' % (ev, atom))
+            # a state that defines is_event_deferred is asked for every type of its list
+            for ev in st.get('deferred') or []:
+                if ev not in [x[0] for x in st['cond_defer']]:
+                    self.w('  template<class Fsm> bool is_event_deferred(const %s&, Fsm&) const { return true; }' % ev)
             self.w('#endif')
         if self.feat.get('serialize'):
             self.w('  int cnt = 0;')
